@@ -263,6 +263,83 @@ def run(tier: str, budget: Budget, rnd, repo_mod) -> StreamResult:
             res.nontrivial.add(h)
         if h < 2:
             res.sample({"n": n, "history": hist[:12]})
+    # ---------------------------------------------------------------- algebra sub-stream: __add__ and __eq__
+    # Objects are built so that EVERY row is determined (known, or both bounds written explicitly): `==` looks at
+    # all three columns, and stale bounds of unknown rows are not specified by anything.
+    pairs = 150 if tier == "quick" else 2000
+    for j in range(pairs):
+        if not budget.ok():
+            break
+        na = rnd.randint(0, 4)
+        nb = na if rnd.random() < 0.8 else rnd.randint(0, 4)
+        made = []
+        for tag, nn in (("a", na), ("b", nb)):
+            NN = 2 ** nn
+            g = IncompleteCooperativeGame(nn)
+            nm = f"alg{j}{tag}"
+            script.add(f"tab new {nm} {nn}", "ok")
+            mode = rnd.choice(["full", "full", "partial", "same"])
+            if mode == "same" and made and made[0][2] == nn:
+                src = made[0]
+                g = src[1].copy()
+                script.add(f"tab copy {src[0]} {nm}", "ok")
+                if rnd.random() < 0.5 and NN > 1:
+                    cc = rnd.randrange(1, NN)
+                    vv = Fraction(rnd.randint(-9, 9))
+                    g.set_value(float(vv), Coalition(cc))
+                    script.add(f"tab set {nm} {cc} {rs(vv)}", "ok")
+            else:
+                for cc in range(NN):
+                    if mode != "partial" or rnd.random() < 0.6 or cc == 0:
+                        vv = Fraction(rnd.randint(-20, 20), rnd.choice([1, 1, 2]))
+                        g.set_value(float(vv), Coalition(cc))
+                        script.add(f"tab set {nm} {cc} {rs(vv)}", "ok")
+                    else:
+                        lo_, hi_ = Fraction(rnd.randint(-20, 0)), Fraction(rnd.randint(0, 20))
+                        g.set_lower_bound(float(lo_), Coalition(cc)); g.set_upper_bound(float(hi_), Coalition(cc))
+                        script.add(f"tab setlo {nm} {cc} {rs(lo_)}", "ok")
+                        script.add(f"tab sethi {nm} {cc} {rs(hi_)}", "ok")
+            made.append((nm, g, nn))
+        (an, ga, _), (bn, gb, _) = made
+        ctx = {"algebra": j, "na": na, "nb": nb, "a": [[bool(x) for x in ga.are_values_known()], [rs(x) for x in ga.get_lower_bounds()], [rs(x) for x in ga.get_upper_bounds()]],
+               "b": [[bool(x) for x in gb.are_values_known()], [rs(x) for x in gb.get_lower_bounds()], [rs(x) for x in gb.get_upper_bounds()]]}
+        for x, y, xn, yn in ((ga, gb, an, bn), (gb, ga, bn, an), (ga, ga.copy(), an, an)):
+            try:
+                r = x == y
+                ans = "1" if r else "0"
+            except Exception as e:      # noqa: BLE001
+                ans = err_kind(e)
+            script.add(f"tab eq {xn} {yn}", ans, ctx)
+            res.count(f"alg:eq:{ans}")
+            if x is ga and y is not gb and ans != "1":
+                res.violation("a copy does not compare equal to its original", ctx, key="table:eq-copy")
+        Ka, La, Ua = dump_impl(ga)
+        Kb, Lb, Ub = dump_impl(gb)
+        try:
+            gs = ga + gb
+            ans = "ok"
+        except Exception as e:          # noqa: BLE001
+            gs, ans = None, err_kind(e)
+        script.add(f"tab add {an} {bn} alg{j}s", ans, ctx)
+        res.count(f"alg:add:{ans}")
+        res.evaluations += 1
+        if ans == "ok":
+            Ks, Ls, Us = dump_impl(gs)
+            script.add(f"tab dump alg{j}s", f"K={''.join('1' if x else '0' for x in Ks)} L={rlist(Ls)} U={rlist(Us)}", ctx)
+            # oracle on the real code: defined only for two full games of one size; pointwise sum; operands untouched
+            if not (all(Ka) and all(Kb) and na == nb):
+                res.violation("__add__ accepted games that are not both fully known / of one size", ctx, key="table:add-domain")
+            elif not all(Ks) or Ls != [x + y for x, y in zip(La, Lb)] or Us != [x + y for x, y in zip(Ua, Ub)]:
+                res.violation("__add__ is not the pointwise sum of two fully known games", ctx, key="table:add-sum")
+            if dump_impl(ga) != (Ka, La, Ua) or dump_impl(gb) != (Kb, Lb, Ub):
+                res.violation("__add__ changed one of its operands", ctx, key="table:add-alias")
+            gs.set_value(123.0, Coalition(0))
+            if dump_impl(ga) != (Ka, La, Ua):
+                res.violation("the sum shares its table with an operand", ctx, key="table:add-alias")
+            if na == nb and all(Ka) and all(Kb) and rnd.random() < 0.5:
+                res.nontrivial.add(("alg", j))
+        elif all(Ka) and all(Kb) and na == nb:
+            res.violation("__add__ raised for two fully known games of one size", ctx, key="table:add-domain")
     # fresh table knows exactly ∅ ↦ 0
     for n in range(1, 6):
         g = IncompleteCooperativeGame(n)
